@@ -178,6 +178,10 @@ Repr(v, t) ==
 \* the value of an integer-class number (e = 0 by construction)
 IntOf(v) == v.re.n
 
+\* an exact integer result r of type ty: untyped (512-bit limit) or an integer type (must fit)
+IntResult(ty, r) == IF IsUntyped(ty) THEN (IF Over512(r) THEN RRej("overflow") ELSE ROk(ty, VI(r)))
+                    ELSE IF FitsT(r, ty) THEN ROk(ty, VI(r)) ELSE RRej("overflow")
+
 (* ------------------------------------------------------------------ literals *)
 \* literal node: [k |-> "lit", lk |-> "int"|"rune"|"float"|"imag"|"str"|"bool", n, e, s]; value n * 2^e (imag: times i)
 EvalLit(t) ==
@@ -215,7 +219,7 @@ Unary(op, x) ==
     [] op = "^" -> IF c # "int" THEN RRej("invalid")
                    ELSE IF x.ty \in UnsignedTypes
                         THEN ROk(x.ty, VI(Sub(Sub(LPow(TWidth(x.ty)), One), IntOf(x.v))))    \* x XOR all-ones mask
-                        ELSE ROk(x.ty, VI(BitNot(IntOf(x.v))))                               \* -1 XOR x
+                        ELSE IntResult(x.ty, BitNot(IntOf(x.v)))                             \* -1 XOR x (512-bit limit applies)
     [] op = "!" -> IF c = "bool" THEN ROk(x.ty, VB(~x.v.b)) ELSE RRej("invalid")
     [] OTHER -> RAny("unknown-operator")
 
@@ -233,9 +237,6 @@ StrCmpFrom(a, b, i) == IF i > Len(a) /\ i > Len(b) THEN 0 ELSE IF i > Len(a) THE
                        ELSE IF a[i] < b[i] THEN -1 ELSE IF a[i] > b[i] THEN 1 ELSE StrCmpFrom(a, b, i + 1)
 UBool(b) == ROk("u.bool", VB(b))
 
-\* integer arithmetic, exact; ty untyped (512-bit limit) or an integer type (must fit)
-IntResult(ty, r) == IF IsUntyped(ty) THEN (IF Over512(r) THEN RRej("overflow") ELSE ROk(ty, VI(r)))
-                    ELSE IF FitsT(r, ty) THEN ROk(ty, VI(r)) ELSE RRej("overflow")
 IntBinary(op, ty, a, b) ==
   CASE op \in EqOps \cup OrdOps -> UBool(CmpHolds(op, Cmp(a, b)))
     [] op = "+" -> IntResult(ty, Add(a, b))
@@ -245,6 +246,8 @@ IntBinary(op, ty, a, b) ==
                    ELSE IntResult(ty, Mul(a, b))
     [] op \in {"/", "%"} ->
          IF b.s = 0 THEN RRej("divzero")
+         ELSE IF op = "/" /\ a = Neg(LP63) /\ b = Neg(One)
+              THEN RAny("minint64-by-minus-one")       \* Go spec: 2^63; gc and go/constant (int64 fast path) wrap to -2^63: not judged
          ELSE LET qr == QuoRem(a, b) IN                                   \* candidate; the Go spec's relation is IsQuoRem
               IF ~IsQuoRem(a, b, qr.q, qr.r) THEN RAny("quorem-candidate-wrong")
               ELSE IntResult(ty, IF op = "/" THEN qr.q ELSE qr.r)
@@ -342,7 +345,10 @@ Shift(op, x, y) ==
   ELSE IF ~x.chk \/ ~y.chk THEN RAny("operand-value-unknown")
   ELSE LET cx == TClass(x.ty) cy == TClass(y.ty) IN
   IF ~IsNumClass(cx) \/ ~IsNumClass(cy) THEN RRej("invalid")
-  ELSE IF ~IsUntyped(y.ty) /\ cy # "int" THEN RRej("invalid")                       \* typed count must have integer type
+  ELSE IF ~IsUntyped(y.ty) /\ cy # "int"                                             \* typed count must have integer type ...
+       THEN (IF DyIsZero(y.v.im) /\ ~DyHuge(y.v.re, 64) /\ DyIsInt(y.v.re) /\ y.v.re.n.s >= 0
+             THEN RAny("typed-float-shift-count")      \* ... but gc and go/types accept an integral typed float constant: not judged
+             ELSE RRej("invalid"))
   ELSE IF ~IsUntyped(x.ty) /\ cx # "int" THEN RRej("invalid")                       \* typed operand must have integer type
   ELSE IF ~DyIsZero(y.v.im) \/ DyHuge(y.v.re, 64) \/ ~DyIsInt(y.v.re) THEN RRej("shift")
   ELSE IF ~DyIsZero(x.v.im) THEN RRej("truncated")
@@ -425,8 +431,8 @@ RefLit(r) ==
 \* integer type through which an integer-kind value is also printed ("" = none)
 PrintType(r) ==
   IF r.st # "ok" \/ ~r.chk \/ TClass(r.ty) # "int" THEN ""
-  ELSE IF r.ty = "u.rune" THEN "int32"
-  ELSE IF r.ty = "u.int" THEN (IF FitsT(IntOf(r.v), "int64") THEN "int64" ELSE IF FitsT(IntOf(r.v), "uint64") THEN "uint64" ELSE "")
+  ELSE IF r.ty = "u.rune" /\ FitsT(IntOf(r.v), "int32") THEN "int32"
+  ELSE IF IsUntyped(r.ty) THEN (IF FitsT(IntOf(r.v), "int64") THEN "int64" ELSE IF FitsT(IntOf(r.v), "uint64") THEN "uint64" ELSE "")
   ELSE r.ty
 \* the constant can be assigned to interface{} (representable in its default type), so its default type is observable
 DynObservable(r) ==
